@@ -142,6 +142,8 @@ def c16():
     for be in (BE_RS, BE_ISAL_VAND, BE_ISAL_CAUCHY):
         for (k, m) in rs_shapes(8 if thorough else 6):
             sw.append(sweep_cmd(be, k, m, m, 2, len_classes(be, k)[5], _seed_of(chk, 500 + k * 9 + m), 0, k + m, 10**9, 1 | 2 | 8 | 16))
+    for (k, m) in boundary_rs():           # k+m up to 32: the realloc bitmap's high bits, unaligned inputs
+        sw.append(sweep_cmd(BE_RS, k, m, m, 2, len_classes(BE_RS, k)[4], _seed_of(chk, 600 + k), 0, min(m + 1, k + m), 25, 1 | 2 | 8 | 16 | 32))
     fs, es, rs_ = run_sweeps("asan", sw, "C16-sweep")
     vs = validate("TraceCodes", fs)
     _collect(chk, vs, ["C16", "fault"])
